@@ -137,10 +137,14 @@ class IncrementalPublisher:
 
     _ids: dict[DeliveryGroup | ItemStream, str]
     _next_id: int
+    _early_failures: dict[DeliveryGroup, list[tuple[DeliveryGroup, BaseException]]]
 
     def __init__(self) -> None:
         self._ids = {}
         self._next_id = 0
+        # failures of groups that have not been announced as pending yet,
+        # by the pending group that will announce them when it completes
+        self._early_failures = {}
 
     def build_response(
         self,
@@ -285,8 +289,30 @@ class IncrementalPublisher:
                         cast("Sequence[ItemStream]", event.new_streams),
                     )
                 )
+            # Nested groups that failed before they could be announced are now
+            # announced and completed with their errors at the same time.
+            for failed_group, error in self._early_failures.pop(group, ()):
+                context.pending.extend(self._to_pending_results([failed_group], []))
+                context.completed.append(
+                    CompletedResult(
+                        self._ids.pop(failed_group), [ensure_graphql_error(error)]
+                    )
+                )
         elif isinstance(event, GroupFailureEvent):
             group = cast("DeliveryGroup", event.group)
+            self._early_failures.pop(group, None)  # never announced any more
+            if group not in self._ids:
+                # The group has failed before it was announced as pending, so the
+                # client does not know its id yet. Report the failure when the
+                # pending group that it is nested in has been completed.
+                parent = group.parent
+                while parent is not None and parent not in self._ids:
+                    parent = parent.parent
+                if parent is not None:
+                    self._early_failures.setdefault(parent, []).append(
+                        (group, event.error)
+                    )
+                return
             context.completed.append(
                 CompletedResult(
                     self._ensure_id(group), [ensure_graphql_error(event.error)]
